@@ -596,9 +596,9 @@ def _extract_waveform(traces, sample, channel_ids=None, n_samples_waveforms=None
         w[:, channel_ids == -1] = 0
     # Deal with side effects.
     if t0 < 0:
-        w = np.vstack((np.zeros((nsw - w.shape[0], n_channels), dtype=w.dtype), w))
+        w = np.vstack((np.zeros((-t0, n_channels), dtype=w.dtype), w))
     if t1 > dur:
-        w = np.vstack((w, np.zeros((nsw - w.shape[0], n_channels), dtype=w.dtype)))
+        w = np.vstack((w, np.zeros((t1 - dur, n_channels), dtype=w.dtype)))
     assert w.shape == (nsw, n_channels)
     return w
 
